@@ -277,6 +277,8 @@ def gen_plans(rng, depth=0, opts=None):
     keys = rng.sample(KEY_POOL, rng.range(2, 6))
     for key in keys:
         r = rng.below(20)
+        if opts and opts.get("range_heavy") and rng.chance(1, 2):
+            r = 12                                   # mostly ranges (C04's probe crates)
         vs = rng.sample(gen.VAR_NAMES[:6], rng.range(0, 2))
         if r < 9:
             plans.append((key, Plan("string", vars=vs or ["x"])))
